@@ -44,6 +44,16 @@ add("C19", "exploration",
     "Trusted: math/bits 128-bit arithmetic, crypto/sha256. Structured exhaustive sub-domains, not all 2^64 points per argument.",
     "bounded exhaustive enumeration of inputs against exact reference arithmetic", "DESIGN.md 3/C19")
 
+chnote = ("Trusted: the reference transition internal/refspec (phase0..deneb, a direct transliteration of the specification with no caches, "
+          "symbolic signatures) and internal/refssz; SHA-256; the BLS library (signing on the harness side). Tiny presets: 4 slots/epoch, 16 validators, "
+          "forks at epochs 1-4 and variants (phase0-only, two upgrades in one epoch, ...). Histories up to the stated length and deviation bound.")
+add("C01", "model_checking",
+    "Deviation-bounded exhaustive exploration of beacon-chain histories: every history of N slots that deviates from a base scenario (healthy, ~50% participation/leak, deposits with eth1 votes, phase0-only, ...) in at most k slots (k<=1 quick on the full ~35-entry per-slot menu of operation mixes; k<=2 thorough on the interacting sub-menu). Blocks are produced from the REFERENCE state with the reference state root and real BLS signatures, travel as bytes through zrnt's decoder and StateTransition(validateResult=true); zrnt must accept and the post-state bytes and cached root must equal the reference's.",
+    chnote, "bounded exhaustive exploration of operation histories on the implementation, lock-step with a reference model (explicit-state, deviation bound)", "DESIGN.md 3/C01")
+add("C02", "model_checking",
+    "Same explorer with per-slot observation: the state is advanced slot by slot on both sides and compared after EVERY slot (root caching, every epoch sub-transition, each in-place upgrade individually), with and without blocks in between (base scenarios: no blocks at all, one block per epoch, healthy, leak, deposits/activations, phase0-only; deviations: gaps, missing/wrong-target attestations, mass exits and slashings).",
+    chnote, "bounded exhaustive exploration of histories on the implementation, lock-step with a reference model (per-slot comparison)", "DESIGN.md 3/C02")
+
 claimed = {c["property_id"] for c in checks}
 na = [{"property_id": "C%02d" % i, "reason": "check not built yet (work in progress; same technique planned, see DESIGN.md section 3)"}
       for i in range(1, 21) if "C%02d" % i not in claimed]
@@ -56,6 +66,8 @@ m = {"version": 1,
      "engines": [
          {"name": "seqx", "path": "internal/seqx", "serves_properties": ["C09", "C10", "C11", "C16", "C20"],
           "kind_free_text": "explicit-state BFS over operation sequences on the real object, replay-from-root, exact state merging on (model state, full private-state dump)"},
+         {"name": "chainx", "path": "internal/chainx, internal/chainh, internal/refspec, internal/refssz", "serves_properties": ["C01", "C02"],
+          "kind_free_text": "deviation-bounded exhaustive explorer over beacon-chain histories; real zrnt transition vs reference specification model on every step"},
          {"name": "enumx", "path": "internal/numx, internal/shufx", "serves_properties": ["C06", "C19"],
           "kind_free_text": "bounded exhaustive enumeration of input shapes/values against reference implementations"}],
      "checks": checks,
